@@ -532,6 +532,20 @@ theorem truediv_fits_src (x y : Fmt) (hx : x.WF) (hy : y.WF) (a b : Int) (ha : x
   rw [truediv_size, fmtOfTuple_sz] at ht
   exact C09.truediv_fits x y hx hy a b ha hb hb0 t ht
 
+/-- **C09 (`//` never overflows) about the source's own sizing rule**, for every pair of operand formats. -/
+theorem floordiv_fits_src (x y : Fmt) (hx : x.WF) (hy : y.WF) (a b : Int) (ha : x.InRange a) (hb : y.InRange b) (hb0 : b ≠ 0)
+    (t : Fmt) (ht : fmtOfTuple (Gen.floordivSize x.signed x.nword x.nint x.nfrac y.signed y.nword y.nint y.nfrac) = some t) :
+    t.InRange ⌊valueOf x a / valueOf y b⌋ := by
+  rw [floordiv_size, fmtOfTuple_sz] at ht
+  exact C09.floordiv_fits x y hx hy a b ha hb hb0 t ht
+
+/-- … and that format exists for every pair of operand formats (the source never refuses a floor division for want of a format). -/
+theorem floordiv_fmt_src (x y : Fmt) (hx : x.WF) :
+    ∃ t, fmtOfTuple (Gen.floordivSize x.signed x.nword x.nint x.nfrac y.signed y.nword y.nint y.nfrac) = some t := by
+  rw [floordiv_size, fmtOfTuple_sz]
+  obtain ⟨t, ht, _⟩ := C09.floordiv_fmt x y hx
+  exact ⟨t, ht⟩
+
 theorem sum_fits_src (f : Fmt) (hw : 0 < f.nword) (cs : List Int) (hne : cs ≠ []) (h : ∀ c ∈ cs, f.InRange c) (t : Fmt)
     (ht : fmtOfTuple (Gen.sumSize f.signed f.nword f.nint f.nfrac cs.length) = some t) : t.InRange (sumL cs) := by
   rw [sum_size, fmtOfTuple_fmtT _ (by unfold sumFmt; simp only; omega)] at ht
